@@ -51,6 +51,13 @@ type Dep interface {
 	D(t @{~/a/foo}.T, rest ...*@{~/b/foo}.T) (@{~/a/foo}.T, *@{~/b/foo}.T)
 }
 
+// method names that an "exported name" helper would rewrite
+type Init interface {
+	Id() int
+	Url(u string)
+	Http2(x int) error
+}
+
 // parameters spelled like identifiers the generated body needs
 type Weird interface {
 	W(panic func(v any), nil int, append string) (error string, mock int)
@@ -62,7 +69,7 @@ type dynBuild struct {
 	Dir          string
 }
 
-var dynIfaces = []string{"Two", "Void", "Gen", "Named", "Wide", "Emb", "Dep", "Weird"}
+var dynIfaces = []string{"Two", "Void", "Gen", "Named", "Wide", "Emb", "Dep", "Init", "Weird"}
 
 func dynPkg(dir string) *SrcPkg {
 	sp := &SrcPkg{Dir: dir, Name: "dyn", Files: []SrcFile{{Name: "dyn.go", Decls: dynFamily}}}
@@ -330,6 +337,9 @@ func runE3(prop, tier string) int {
 	}
 	rep.Set("samples", samples)
 	rep.Set("rule", "all operation sequences (call with each callback behaviour, accessor read kept as snapshot, per-method reset, reset-all) up to the stated depth on fresh zero-value mocks compiled from the generator's output, compared step by step with a list model; oracle for this property: "+e3Props[prop]+"; states = distinct (model lengths, len/cap of each record slice, snapshot sharing) tuples; every history is an execution of the compiled implementation")
+	if prop == "C08" {
+		c08Static(rep, tier)
+	}
 	rep.Assume = []string{"reflection calls behave like direct calls", "values of interface types with methods are passed as nil (they cannot be implemented by reflection)", "argument domain: 2 tokens per parameter"}
 	return rep.Finish()
 }
